@@ -19,6 +19,8 @@ UVL_NAMES = {
     "digit-first": "2fast", "underscore-first": "_u", "keyword": "or", "keyword-type": "Integer",
     "opword": "AND", "brackets": "a[1]{b}", "keyword-features": "features", "digits": "64",
     "number-like": "1e3", "case-variant": "alpha_1", "true": "true",
+    "tab-inside": "tab\there", "leading-blank": " lead", "trailing-blank": "trail ", "double-blank": "two  blanks",
+    "apostrophe": "it's", "comma-colon": "a,b:c", "slashes": "a/b\\c", "hash-at": "#tag@home",
 }
 
 
